@@ -255,12 +255,17 @@ Definition unbatch_raw (tok nonce : Z) (s : state) : state * outcome :=
 
 (** * Governance: SetBridgeTax / SetBridgeTransferLimit.
     [ok num den]: what [big.Rat.SetString rate] returned on the Go side (trusted glue). *)
+(** [tok] is the token string of the proposal exactly as submitted (token identifiers stand for
+    byte strings: two spellings that differ in case or in surrounding blanks are two tokens).  The
+    record is stored under [G.gov_tax_token tok] / [G.gov_limit_token tok] — what the handler in
+    governance_proposals.go puts into the record's Token field, read from the source: the submitted
+    string itself — and a send looks the settings up by its coin's denom, also verbatim. *)
 Definition settax_raw (tok : Z) (ok : bool) (num den : Z) (ex : list Z) (s : state) : state * outcome :=
-  if ok && (0 <=? num) then (set_tax s tok {| tc_num := num; tc_den := den; tc_exempt := ex |}, Ok)
+  if ok && (0 <=? num) then (set_tax s (G.gov_tax_token tok) {| tc_num := num; tc_den := den; tc_exempt := ex |}, Ok)
   else (s, Err ERate).
 
 Definition setlimit_raw (tok limit : Z) (p : period) (ex : list Z) (s : state) : state * outcome :=
-  (set_limit s tok {| lc_limit := limit; lc_period := p; lc_exempt := ex |}, Ok).
+  (set_limit s (G.gov_limit_token tok) {| lc_limit := limit; lc_period := p; lc_exempt := ex |}, Ok).
 
 (** * Operations and delivery *)
 Inductive op :=
